@@ -32,6 +32,27 @@ type c13Mut struct {
 	altLines []int
 }
 
+var c13AllKeysCache map[string]bool
+
+// c13AllKeys: every key that occurs anywhere in the seeds (lower-cased) plus the documented
+// -ignore filters: a near miss that is spelled like one of them may be legal where it is put and is
+// not generated.
+func c13AllKeys() map[string]bool {
+	if c13AllKeysCache != nil {
+		return c13AllKeysCache
+	}
+	out := map[string]bool{"branches-ignore": true, "tags-ignore": true, "paths-ignore": true, "branches": true, "tags": true, "paths": true, "types": true, "workflows": true}
+	for _, name := range vSortedKeys(vSeeds) {
+		if c, err := vBuildCatalogue(name, vSeeds[name]); err == nil {
+			for _, k := range c.Keys {
+				out[strings.ToLower(k.Value)] = true
+			}
+		}
+	}
+	c13AllKeysCache = out
+	return out
+}
+
 func c13Indent(n int) string { return strings.Repeat(" ", n) }
 
 // c13Mutations builds all key mutations of mapping m.
@@ -80,6 +101,23 @@ func c13Mutations(c *vCatalogue, m *vPos, sch vMappingSchema) []c13Mut {
 					mu.expLine, mu.expCol = lm(m.Line), m.Col
 				}
 				out = append(out, mu)
+			}
+		}
+	}
+	// near misses: keys built from the legal keys of this mapping (an -ignore partner that does not
+	// exist, a plural / singular, _ for -, a doubled suffix): outside the key set like any other
+	if sch.Closed && !sch.AtItem {
+		legal := c13AllKeys()
+		seenNear := map[string]bool{}
+		for _, mk := range m.Keys {
+			k := mk.Value
+			for _, near := range []string{k + "-ignore", strings.TrimSuffix(k, "-ignore"), k + "s", strings.TrimSuffix(k, "s"), strings.ReplaceAll(k, "-", "_"), k + "-" + k} {
+				if near == "" || legal[strings.ToLower(near)] || seenNear[near] {
+					continue
+				}
+				seenNear[near] = true
+				src, lm := ins(m.EndLine, []string{ind + near + ": 1"})
+				out = append(out, c13Mut{kind: "foreign-near-miss", key: near, src: src, expLine: m.EndLine + 1, expCol: m.Indent, lineMap: lm})
 			}
 		}
 	}
@@ -417,7 +455,7 @@ func c03QuoteCopy(s string) string { return "'" + strings.ReplaceAll(s, "'", "''
 func TestVerifC13(t *testing.T) {
 	r := vNewReport("C13")
 	defer r.Write(t)
-	r.Extra["rule"] = "every mapping node of the 4 maximal seeds x {foreign key first/middle/last in 3 forms (scalar, nested, null value; closed mappings), every key duplicated verbatim / re-cased (case-insensitive sections), every mandatory key removed} x {alone, plus a malformed placeholder in each sibling scalar (direct values and the first scalar below each sibling section)}; oracle from the schema of appendix C; class = (schema path of the mapping, mutation); all classes non-trivial"
+	r.Extra["rule"] = "every mapping node of the 4 maximal seeds x {foreign key first/middle/last in 3 forms (scalar, nested, null value; closed mappings), near-miss keys built from the keys present in the mapping (-ignore partner, plural / singular, _ for -, doubled), every key duplicated verbatim / re-cased (case-insensitive sections), every mandatory key removed} x {alone, plus a malformed placeholder in each sibling scalar (direct values and the first scalar below each sibling section)}; oracle from the schema of appendix C; class = (schema path of the mapping, mutation); all classes non-trivial"
 	r.Extra["assumptions"] = []string{"block-style mappings of the seeds only; open mappings get no foreign-key expectation; on: event names are left to the events rule"}
 	if raw := vReplayInput(); raw != nil {
 		var rp map[string]any
